@@ -39,7 +39,28 @@ def run(rep):
             cases.append(G.element(name, 0, 2 if quick else 4))
     for _ in range(20 if quick else 200):
         cases.append(G.element('score-partwise', 0, 4 if quick else 6))
-    ra, _ = docs.run_docs(api=cases)
+    # elements whose text is union-typed or numeric: several documents each, so that every value shape meets every other in one process
+    shaped = []
+    for name in roots:
+        t = G.etype.get(name)
+        sc = G.ct[t]['simple'] if t in G.ct else (t if t in G.st else None)
+        if sc and sc in G.st and (G.st[sc]['union'] is not None or G.numeric_root(sc) in docgen.XS_NUM and not G.st[sc]['enum'] and not G.st[sc]['patterns']):
+            shaped.append(name)
+    n_main = len(cases)
+    for name in shaped:
+        for _ in range(6 if quick else 20):
+            cases.append(G.element(name, 0, 1))
+    ra, _ = docs.run_docs(api=cases, by_tag=True)
+    # the same documents parsed in the opposite order by one process each: a document's result must not depend on what was parsed before it
+    hist_cases = cases[n_main:]
+    fwd, _ = docs.run_docs(api=hist_cases, n=1)
+    bwd, _ = docs.run_docs(api=hist_cases[::-1], n=1)
+    for node, a, b in zip(hist_cases, fwd, bwd[::-1]):
+        if a != b:
+            rep.violation('<%s>: the result of write / parse depends on the documents parsed earlier in the same process' % node['tag'],
+                          {'document': node, 'after_earlier_documents': {k: str(v)[:400] for k, v in a.items()}, 'after_later_documents': {k: str(v)[:400] for k, v in b.items()},
+                           'sequence': [c for c in hist_cases if c['tag'] == node['tag']]})
+            break
     n_emitted = n_rt = 0
     steps = {}
     for node, r in zip(cases, ra):
@@ -64,13 +85,13 @@ def run(rep):
     sizes = [docgen.size(c) for c in cases]
     rep.coverage.update({'evaluations': len(cases), 'distinct_nontrivial': sum(1 for c in cases if docgen.size(c) >= 3), 'traces_validated_against_impl': n_emitted,
                          'documents_emitted': n_emitted, 'full_round_trips': n_rt, 'not_emittable': steps,
-                         'input_distribution': {'max_nodes': max(sizes), 'mean_nodes': round(sum(sizes) / len(sizes), 1), 'roots': len(roots)},
+                         'value_shape_documents': len(cases) - n_main, 'elements_with_union_or_numeric_text': len(shaped), 'input_distribution': {'max_nodes': max(sizes), 'mean_nodes': round(sum(sizes) / len(sizes), 1), 'roots': len(roots)},
                          'rule': 'for every partwise element name as root (plus whole score-partwise documents): children drawn from the schema content model (guided walk + shortest completion), '
                                  'attributes (required + 25% of optional) and text sampled from the schema simple types with typed Python values; non-trivial = document of >= 3 nodes',
                          'samples': [cases[0], cases[len(cases) // 2]]})
     if not res['ok'] or res['forbidden'] or not res['build_ok']:
         if not rep.violations:
-            rep.violation('Properties/C08.v no longer checks (theorem %s)' % res['failing'], {'theorem': res['failing'], 'log': res['log'][-2000:]}, found_input=False)
+            rep.violation('Properties/C08.v no longer checks (theorem %s)' % res['failing'], {'theorem': res['failing'], 'parser_as_read_by_the_translator': json.load(open(os.path.join(C.BUILD, 'code.json'))).get('parser'), 'log': res['log'][-2000:]}, found_input=False)
     rep.assumptions += ['float() / int() of Python are parameters of the ladder theorems (hypotheses stated in Properties/C08.v)',
                         'documents the library refuses to build or emit are outside this property (counted in not_emittable)']
 
